@@ -567,7 +567,7 @@ package ion
 
 //@ func (*binaryReader).readBVM
 //@ split returns
-//@ requires brLocal(r) && bsOn(&r.bits, bitcodeBVM)
+//@ requires brCore(r) && bsOn(&r.bits, bitcodeBVM)
 //@ modifies r.lst, r.bits.pos, r.bits.state, r.bits.code, r.bits.null, r.bits.len, vcStreamOf(r.bits.in).cur
 //@ ensures[C03,C06,C10] err == nil ==> brLocal(r) && r.bits.state == bssBeforeValue
 //@ ensures[C03,C10] err == nil ==> r.lst == V1SystemSymbolTable
